@@ -108,9 +108,9 @@ func (a ActivityVocabularyType) MarshalJSON() ([]byte, error) {
 	if len(a) == 0 {
 		return nil, nil
 	}
-	b := make([]byte, 0)
-	JSONWriteStringValue(&b, string(a))
-	return b, nil
+	b := bytes.Buffer{}
+	stringBytes(&b, []byte(a), false)
+	return b.Bytes(), nil
 }
 
 // GobEncode
@@ -564,9 +564,9 @@ func (m MimeType) MarshalJSON() ([]byte, error) {
 	if len(m) == 0 {
 		return nil, nil
 	}
-	b := make([]byte, 0)
-	JSONWriteStringValue(&b, string(m))
-	return b, nil
+	b := bytes.Buffer{}
+	stringBytes(&b, []byte(m), false)
+	return b.Bytes(), nil
 }
 
 // GobEncode
